@@ -13,7 +13,7 @@ FUNCTIONS = [
 ]
 BOUNDS = {
     "quick": "4 rows on 3 plates (two screens), every initial per-plate status, symbolic observation values, every history of 2 operations from {reveal(<=2 plate ids incl. repeated / already observed / unknown ids -1 and n_plates), mask, unmask, save+load, reveal via CLI}; construction: every per-row mask on 4 rows",
-    "thorough": "6 rows on 4 plates, histories of 3 operations",
+    "thorough": "5 rows with histories of 3 operations, and 6 rows on 4 plates with histories of 2 operations",
 }
 ASSUMPTIONS = [
     "names/doses are concrete (construction on arbitrary names is C01); observation values are symbolic reals (finite), with separate concrete zero / NaN cases",
@@ -35,10 +35,10 @@ ROWS = {
 
 def configs(tier, seed):
     q = tier == "quick"
-    R, L = (4, 2) if q else (6, 3)
     out = [dict(name="construct %s" % st, h="construct", st=st, R=4) for st in ("A", "B")]
     for st in ("A", "B"):
-        out.append(dict(name="history %s R=%d L=%d" % (st, R, L), h="history", st=st, R=R, L=L))
+        for R, L in (((4, 2),) if q else ((5, 3), (6, 2))):
+            out.append(dict(name="history %s R=%d L=%d" % (st, R, L), h="history", st=st, R=R, L=L))
     out.append(dict(name="reveal-guards", h="guards", st="A", R=4))
     out.append(dict(name="set_observed", h="setobs", st="A", R=4))
     return out
